@@ -11,7 +11,11 @@ LEVEL_TEXT = ("JsonExporter/JsonImporter are pure delegations: the Lean model st
               "export, read with import_, and the re-imported tree with the Lean prediction.")
 LEVEL_NOTE = ("Partial by construction: CPython's json module is trusted (assumption loads(dumps d) = d for JSON-representable d). "
               "Trusted: Lean kernel, standard axioms; the mirror lean/Anytree/Model/Dict.lean.")
-THEOREMS = []
+THEOREMS = [
+    ("Anytree.Props.C11.json_export_eq", "full"),
+    ("Anytree.Props.C11.json_round_trip", "full"),
+    ("Anytree.Props.C11.json_round_trip_view", "full"),
+]
 NOT_COVERED = ["json.dumps/json.loads themselves (CPython); the byte-level text is compared with json.dumps of the dict export, not modelled"]
 PREDICATE_SPEC = True
 RULE = ("as C10 with the JSON layer: json options indent/sort_keys/ensure_ascii/separators, JsonExporter maxlevel, custom "
